@@ -123,7 +123,7 @@ func (prop) Describe() core.Description {
 		RealComponents: []string{"encoding/igc (Encoder.Encode, Read and its parser)", "go-geom LineString", "stdlib bufio.Scanner, fmt, regexp, time"},
 		StubComponents: []string{"io.Writer under the encoder (simio.Writer)", "the medium between writer and reader (line and byte edits)", "io.Reader under the decoder (simio.Reader: chunking, stalls incl. unbounded, data+EOF, error at offset, truncation)"},
 		FaultKinds:     []string{"read-split", "read-stall", "read-data+eof", "read-error", "read-truncate", "stall-forever", "line-drop", "line-dup", "line-swap", "line-tear", "line-long", "byte-edit", "write-fail"},
-		Probes:         []string{"probe:year<2000", "probe:year-rollover", "probe:day-rollover", "probe:lat==+-90", "probe:lon==+-180", "probe:alt-clamped", "probe:fractional-second", "probe:I-record", "probe:I-record-extends-B", "probe:B-shorter-than-announced", "probe:line>64KiB", "probe:torn-inside-B", "probe:noise-before-A", "probe:record-errors-returned", "probe:prefix-tracks", "probe:encoder-reused", "probe:local-zone-not-utc", "probe:extra-ordinates-nonzero", "probe:first-result-rechecked-after-later-decodes", "probe:headers-checked", "probe:decode-after-an-unrelated-stream", "probe:encode-reported-success-although-the-writer-failed"},
+		Probes:         []string{"probe:year<2000", "probe:year-rollover", "probe:day-rollover", "probe:lat==+-90", "probe:lon==+-180", "probe:alt-clamped", "probe:fractional-second", "probe:I-record", "probe:I-record-extends-B", "probe:B-shorter-than-announced", "probe:line>64KiB", "probe:torn-inside-B", "probe:noise-before-A", "probe:record-errors-returned", "probe:prefix-tracks", "probe:encoder-reused", "probe:local-zone-not-utc", "probe:extra-ordinates-nonzero", "probe:first-result-rechecked-after-later-decodes", "probe:headers-checked", "probe:decode-after-an-unrelated-stream", "probe:encode-reported-success-although-the-writer-failed", "probe:consecutive-fixes-with-identical-records"},
 	}
 }
 
@@ -282,7 +282,22 @@ func genTrack(r *prng.Rand) []Fix {
 		if r.Chance(0.15) && tt < maxT {
 			tt += r.Float() * 0.999
 		}
-		fixes = append(fixes, Fix{Lon: mgeom.F(genAngle(r, 180)), Lat: mgeom.F(genAngle(r, 90)), Alt: mgeom.F(alt), T: mgeom.F(tt)})
+		fx := Fix{Lon: mgeom.F(genAngle(r, 180)), Lat: mgeom.F(genAngle(r, 90)), Alt: mgeom.F(alt), T: mgeom.F(tt)}
+		if len(fixes) > 0 && r.Chance(0.12) {
+			// a logger that stands still: the same place and height as the fix
+			// before (to the bit, or differing below the format's resolution),
+			// in the same second or whenever the clock says
+			prev := fixes[len(fixes)-1]
+			fx.Lon, fx.Lat, fx.Alt = prev.Lon, prev.Lat, prev.Alt
+			if r.Chance(0.3) {
+				fx.Lon = mgeom.F(clampF(float64(prev.Lon)+1e-9, -180, 180))
+				fx.Alt = mgeom.F(math.Trunc(float64(prev.Alt)) + r.Float()*0.9)
+				if float64(fx.Alt) < 0 {
+					fx.Alt = prev.Alt
+				}
+			}
+		}
+		fixes = append(fixes, fx)
 		step := []int64{0, 1, 1, 2, 10, 60, 3599, 86399, 86400, 86401, 3 * 86400, 31 * 86400, 366 * 86400}[r.Intn(13)]
 		if r.Chance(0.6) {
 			step = int64(r.Range(0, 5))
@@ -809,6 +824,9 @@ func trackProbes(res *core.Result, fixes []Fix) (crossings int) {
 		}
 		if float64(f.T) != math.Floor(float64(f.T)) {
 			res.Count("probe:fractional-second", 1)
+		}
+		if i > 0 && math.Floor(float64(f.Lon)*60000) == math.Floor(float64(fixes[i-1].Lon)*60000) && math.Floor(float64(f.Lat)*60000) == math.Floor(float64(fixes[i-1].Lat)*60000) && clampAlt(float64(f.Alt)) == clampAlt(float64(fixes[i-1].Alt)) && math.Mod(math.Floor(float64(f.T)), 86400) == math.Mod(math.Floor(float64(fixes[i-1].T)), 86400) {
+			res.Count("probe:consecutive-fixes-with-identical-records", 1)
 		}
 		if i > 0 {
 			d0, d1 := math.Floor(float64(fixes[i-1].T)/86400), math.Floor(float64(f.T)/86400)
